@@ -583,34 +583,7 @@ def sib_rules(C, P):
             b = P.get(s)
             ok = version_index_shape(b)
             C.check(ok, 'C18-SIB-listing', '%s|version-index-is-base-plus-pos' % s, 'VERSION_INFO is not indexed by <accessor result> + <position> in %s' % s)
-        # get_sub_element_spec descends through groups: the version base must follow the sub-element slice level by level
-        gs = P.get('ElementType::get_sub_element_spec')
-        se = [(pos, t) for pos, t in gs.iter_calls() if call_matches(t, r'ElementType::get_sub_elements$')]
-        sv = [(pos, t) for pos, t in gs.iter_calls() if call_matches(t, r'ElementType::get_sub_element_ver$')]
-        from flow import deep_sources
-        def argsrc(b, t):
-            n_, c_, f_ = deep_sources(b, t['args'][0])
-            return (frozenset(n_), frozenset(x for x in f_))
-        okp = len(se) == len(sv) and len(se) >= 2 and sorted(map(str, (argsrc(gs, t) for _, t in se))) == sorted(map(str, (argsrc(gs, t) for _, t in sv)))
-        C.check(okp, 'C18-SIB-listing', 'get_sub_element_spec|version-base-follows-group-descent',
-                'get_sub_element_spec switches the sub-element slice when it descends into a group (%d sites) but not the version-list base (%d sites): masks of grouped sub-elements are read from the wrong list' % (len(se), len(sv)),
-                sample={'fn': 'get_sub_element_spec', 'slice_switches': len(se), 'version_base_switches': len(sv)})
-        # ... and the VERSION_INFO index uses the loop-carried base (all get_sub_element_ver results reach it)
-        reach_all = False
-        vi_locals = set()
-        for pos, s_ in gs.iter_stmts():
-            if s_['k'] == 'assign' and s_['rv']['k'] == 'use' and isinstance(s_['rv']['o'], dict) and s_['rv']['o'].get('static', '').endswith('VERSION_INFO'):
-                vi_locals.add(s_['dst']['l'])
-        for pos, s_ in gs.iter_stmts():
-            if s_['k'] == 'assign' and s_['rv']['k'] == 'bin' and 'Add' in s_['rv']['op']:
-                got = set()
-                for o in (s_['rv']['a'], s_['rv']['b']):
-                    for org in origins(gs, o):
-                        if org[0] not in ('param', 'const', 'place') and org[1].get('k') == 'call' and call_matches(org[1], r'get_sub_element_ver$'):
-                            got.add(id(org[1]))
-                if len(got) == len(sv) and len(sv) >= 2:
-                    reach_all = True
-        C.check(reach_all, 'C18-SIB-listing', 'get_sub_element_spec|mask-index-uses-current-level-base', 'the VERSION_INFO index in get_sub_element_spec is not computed from the version base of the level that was reached')
+        version_base_rule(C, P, 'C18-SIB-listing')
         # attributes
         st1, cl1, fl1 = closure_info(['<AttrDefinitionsIter as Iterator>::next'])
         st2, cl2, fl2 = closure_info(['ElementType::find_attribute_spec'])
@@ -663,6 +636,38 @@ TABLE_INDEX_SOURCES = {
     'DATATYPES': {'field:ElementType.typ', 'field:GroupType.0', 'payload:Group', 'param:etype'},
     'ELEMENTS': {'field:ElementType.def', 'payload:Element', 'param:def'},
 }
+
+
+def version_base_rule(C, P, RULE):
+    """get_sub_element_spec (behind get_sub_element_version_mask / _multiplicity, which the strict validator and the editor consult): the version base follows the group descent"""
+    # get_sub_element_spec descends through groups: the version base must follow the sub-element slice level by level
+    gs = P.get('ElementType::get_sub_element_spec')
+    se = [(pos, t) for pos, t in gs.iter_calls() if call_matches(t, r'ElementType::get_sub_elements$')]
+    sv = [(pos, t) for pos, t in gs.iter_calls() if call_matches(t, r'ElementType::get_sub_element_ver$')]
+    from flow import deep_sources
+    def argsrc(b, t):
+        n_, c_, f_ = deep_sources(b, t['args'][0])
+        return (frozenset(n_), frozenset(x for x in f_))
+    okp = len(se) == len(sv) and len(se) >= 2 and sorted(map(str, (argsrc(gs, t) for _, t in se))) == sorted(map(str, (argsrc(gs, t) for _, t in sv)))
+    C.check(okp, RULE, 'get_sub_element_spec|version-base-follows-group-descent',
+            'get_sub_element_spec switches the sub-element slice when it descends into a group (%d sites) but not the version-list base (%d sites): masks of grouped sub-elements are read from the wrong list' % (len(se), len(sv)),
+            sample={'fn': 'get_sub_element_spec', 'slice_switches': len(se), 'version_base_switches': len(sv)})
+    # ... and the VERSION_INFO index uses the loop-carried base (all get_sub_element_ver results reach it)
+    reach_all = False
+    vi_locals = set()
+    for pos, s_ in gs.iter_stmts():
+        if s_['k'] == 'assign' and s_['rv']['k'] == 'use' and isinstance(s_['rv']['o'], dict) and s_['rv']['o'].get('static', '').endswith('VERSION_INFO'):
+            vi_locals.add(s_['dst']['l'])
+    for pos, s_ in gs.iter_stmts():
+        if s_['k'] == 'assign' and s_['rv']['k'] == 'bin' and 'Add' in s_['rv']['op']:
+            got = set()
+            for o in (s_['rv']['a'], s_['rv']['b']):
+                for org in origins(gs, o):
+                    if org[0] not in ('param', 'const', 'place') and org[1].get('k') == 'call' and call_matches(org[1], r'get_sub_element_ver$'):
+                        got.add(id(org[1]))
+            if len(got) == len(sv) and len(sv) >= 2:
+                reach_all = True
+    C.check(reach_all, RULE, 'get_sub_element_spec|mask-index-uses-current-level-base', 'the VERSION_INFO index in get_sub_element_spec is not computed from the version base of the level that was reached')
 
 
 def table_index_provenance(C, P):
